@@ -7,6 +7,7 @@ import (
 	"math/rand"
 	"net"
 	"runtime"
+	"strings"
 	"sync"
 	"sync/atomic"
 	"time"
@@ -58,6 +59,7 @@ type n1Cfg struct {
 	SlowRecvUs [2]int     `json:"slow_on_receive_max_us"`
 	Senders    []n1Sender `json:"senders"`
 	ZeroLen    bool       `json:"has_zero_length_messages"`
+	HighIDs    bool       `json:"has_channel_ids_from_0x80"`
 }
 
 const n1Magic = 0xC1
@@ -102,10 +104,15 @@ func genN1(c *verdict.Ctx, idx int) n1Cfg {
 	cfg.MaxPayload = []int{1024, 1024, 1024, 1024, 1024, 1024, 100, 17, 4096, 1}[r.Intn(10)]
 	nch := 3 + r.Intn(3)
 	used := map[byte]bool{}
+	// a quarter of the runs use channel ids >= 0x80 (two-byte varint on the wire) on some channels
+	cfg.HighIDs = r.Intn(6) == 0
 	for i := 0; i < nch; i++ {
 		var id byte
 		for {
-			id = byte(r.Intn(0x80)) // like every real channel: below 0x80 (see N2 class high-channel-id)
+			id = byte(r.Intn(0x80))
+			if cfg.HighIDs && (i == 0 || r.Intn(2) == 0) {
+				id = []byte{0x80, 0xC0, 0xFF, byte(0x80 + r.Intn(0x80))}[r.Intn(4)]
+			}
 			if !used[id] {
 				used[id] = true
 				break
@@ -163,6 +170,10 @@ func genN1(c *verdict.Ctx, idx int) n1Cfg {
 			p := cfg.MaxPayload
 			cands := []int{16, 17, 100, 1023, 1024, 1025, 2047, 2048, 2049, 3000, 4096, 10000,
 				p - 1, p, p + 1, 2*p - 1, 2 * p, 2*p + 1, 3 * p, 10 * p, ch.RecvCap - 1, ch.RecvCap, ch.RecvCap / 2, 16 + r.Intn(64)}
+			if cfg.HighIDs {
+				// messages whose last packet (or every packet) carries a full payload
+				cands = append(cands, p, p, 2*p, 2*p, 3*p, 4*p)
+			}
 			if sd.Solo {
 				cands = append(cands, 1, 2, 15, 1, 3)
 				if zero {
@@ -456,6 +467,31 @@ func runN1Case(r *rec, cfg n1Cfg) {
 			w[k] = v
 		}
 		return w
+	}
+	// Both ends are conforming MConnections with the same configuration and every message fits the
+	// receiver's capacity: a receiver that rejects what its peer's sendRoutine produced is a defect
+	// (the accepted messages behind it are lost with the connection).
+	for s := 0; s < 2; s++ {
+		if v := sides[s].errV.Load(); v != nil {
+			es := v.(string)
+			kind := classifyConnErr(es)
+			if strings.Contains(es, "unknown channel") {
+				kind = "unknown_channel"
+			} else if strings.Contains(es, "unknown message type") {
+				kind = "unknown_message_type"
+			}
+			switch kind {
+			case "packet_exceeds_max_size", "message_exceeds_capacity", "recovered_panic", "unknown_channel", "unknown_message_type":
+				r.Violation("mconn-conforming-traffic-rejected:"+kind, "a real MConnection rejected the packets produced by its peer's real MConnection (same configuration, every message within RecvMessageCapacity): "+es,
+					wit(map[string]interface{}{"receiving_side": s, "error": es}))
+			}
+		}
+	}
+	if cfg.HighIDs {
+		r.Count("n1.runs_with_channel_ids_from_0x80", 1)
+		if settled && !errRun {
+			r.Count("n1.runs_with_channel_ids_from_0x80_clean", 1)
+		}
 	}
 	if stalled && !errRun && running {
 		// which messages are missing is established below; this is the time-based part
@@ -772,6 +808,7 @@ func stageN1(c *verdict.Ctx, r *rec) {
 		}()
 	}
 	wg.Wait()
+	stagePark(c, r)
 	r.Count("n1.recving_hook_hits", atomic.LoadInt64(&hookHits))
 	r.Max("n1.max_recving_permille_of_capacity", atomic.LoadInt64(&hookMaxRatio))
 	hookOverMu.Lock()
